@@ -124,6 +124,44 @@ def main():
         if p.is_alive():
             p.kill()
     del anon
+    # L1, liveness is only good for the critical section it was observed in: a dead, not yet pruned persistent worker is restarted by this thread while
+    # another thread is inside active_children() and has already looked at it (that thread is held in the liveness check of a later worker, standing for a
+    # remote worker whose is_alive() takes time).  The restarted worker is alive: it must not be lost from the registry
+    import threading as _th2
+
+    class SlowProbe(ThreadWorker):
+        armed, prober, entered, resume = False, None, _th2.Event(), _th2.Event()
+
+        def is_alive(self):
+            if SlowProbe.armed and _th2.current_thread() is SlowProbe.prober:
+                SlowProbe.armed = False
+                SlowProbe.entered.set()
+                SlowProbe.resume.wait(2)
+            return super().is_alive()
+    list(Worker.active_children())
+    stop_evt = _th2.Event()
+    w1 = PersistentThreadWorker(fn)
+    probe = SlowProbe(stop_evt.wait, args=(30,))
+    w1.wait(5)
+    if not w1.is_alive() and probe.is_alive():
+        th = _th2.Thread(target=lambda: list(Worker.active_children()))
+        SlowProbe.prober, SlowProbe.armed = th, True
+        th.start()
+        if SlowProbe.entered.wait(10):
+            rt = _th2.Thread(target=lambda: w1.restart(timeout=2))      # with one critical section this blocks on the registry lock until the poller is done
+            rt.start()
+            rt.join(1.0)
+            SlowProbe.resume.set()
+            rt.join(10)
+        th.join(10)
+        obs['restarted_during_poll_alive'] = w1.is_alive()
+        obs['restarted_during_poll_yielded'] = sum(1 for w in Worker.active_children() if w is w1)
+        if w1.is_alive() and obs['restarted_during_poll_yielded'] != 1:
+            viol.append('a dead persistent worker that was restarted while another thread was inside active_children() (after that thread had found it dead, before '
+                        f"it wrote the registry) is alive but yielded {obs['restarted_during_poll_yielded']} times afterwards: dropped from the registry for good")
+    stop_evt.set()
+    probe.wait(2)
+    w1.terminate(timeout=1)
     # L1 under interference: another thread registers a worker at the first moment the registry lock is free during
     # active_children() (a legal schedule, forced here by a lock wrapper of the harness): the registration must survive
     class SpyLock:
